@@ -27,6 +27,8 @@ pub enum MutOp {
     Put { path: Vec<String>, key: String, value: Value },
     Dup { path: Vec<String> },
     Rm { path: Vec<String> },
+    /// duplicate an array element `times` times (repetition limits: "not more than ten times")
+    DupN { path: Vec<String>, times: usize },
 }
 
 #[derive(Serialize, Deserialize, Clone, Debug, PartialEq)]
@@ -173,6 +175,20 @@ pub fn apply_op(g: &mut Value, op: &MutOp) -> bool {
             }
             _ => false,
         },
+        MutOp::DupN { path, times } => {
+            let (par, last) = path.split_at(path.len().saturating_sub(1));
+            let Some(i) = last.first().and_then(|s| s.parse::<usize>().ok()) else { return false };
+            match get_mut(g, par) {
+                Some(Value::Array(a)) if i < a.len() => {
+                    let e = a[i].clone();
+                    for _ in 0..(*times).min(16) {
+                        a.insert(i, e.clone());
+                    }
+                    true
+                }
+                _ => false,
+            }
+        }
         MutOp::Dup { path } | MutOp::Rm { path } => {
             let (par, last) = path.split_at(path.len().saturating_sub(1));
             let Some(i) = last.first().and_then(|s| s.parse::<usize>().ok()) else { return false };
@@ -203,7 +219,14 @@ fn propose(g: &Value, donor: &Value, donor2: &Value, r: &mut Sm) -> Option<MutOp
         return None;
     }
     let s = |x: &&str| Value::String(x.to_string());
-    match r.below(13) {
+    match r.below(14) {
+        13 => {
+            let cand: Vec<_> = ls.iter().filter(|(p, _)| p.last().is_some_and(|k| k.parse::<usize>().is_ok())).collect();
+            if cand.is_empty() {
+                return None;
+            }
+            Some(MutOp::DupN { path: cand[r.below(cand.len())].0.clone(), times: 8 + r.below(5) })
+        }
         11 | 12 => {
             // cross-type donor: a field object under a key this type's scenarios may never carry
             let df = donor2.get("fields")?.as_object()?;
